@@ -62,9 +62,9 @@ def demo_info(d):
 def main():
     only = [a for a in sys.argv[1:] if not a.startswith("--")]
     os.makedirs("/verif/seeded", exist_ok=True)
-    for d in sorted(glob.glob("/tmp/seed/out/C*/m[0-9]")) + sorted(glob.glob("/tmp/seed2/out/C*/m[0-9]")) + sorted(glob.glob("/tmp/seed3/out/C*/m[0-9]")) + sorted(glob.glob("/tmp/seed4/out/C*/m[0-9]")) + sorted(glob.glob("/tmp/seed5/out/C*/m[0-9]")) + sorted(glob.glob("/tmp/seed6/out/C*/m[0-9]")) + sorted(glob.glob("/tmp/seed7/out/C*/m[0-9]")):
+    for d in sorted(glob.glob("/tmp/seed/out/C*/m[0-9]")) + sorted(glob.glob("/tmp/seed2/out/C*/m[0-9]")) + sorted(glob.glob("/tmp/seed3/out/C*/m[0-9]")) + sorted(glob.glob("/tmp/seed4/out/C*/m[0-9]")) + sorted(glob.glob("/tmp/seed5/out/C*/m[0-9]")) + sorted(glob.glob("/tmp/seed6/out/C*/m[0-9]")) + sorted(glob.glob("/tmp/seed7/out/C*/m[0-9]")) + sorted(glob.glob("/tmp/seed8/out/C*/m[0-9]")):
         pid, mn = d.split("/")[-2], d.split("/")[-1]
-        name = f"{pid}-{mn}" if d.startswith("/tmp/seed/") else (f"{pid}-r2{mn}" if d.startswith("/tmp/seed2/") else (f"{pid}-r3{mn}" if d.startswith("/tmp/seed3/") else (f"{pid}-r4{mn}" if d.startswith("/tmp/seed4/") else (f"{pid}-r5{mn}" if d.startswith("/tmp/seed5/") else (f"{pid}-r6{mn}" if d.startswith("/tmp/seed6/") else f"{pid}-r7{mn}")))))
+        name = f"{pid}-{mn}" if d.startswith("/tmp/seed/") else (f"{pid}-r2{mn}" if d.startswith("/tmp/seed2/") else (f"{pid}-r3{mn}" if d.startswith("/tmp/seed3/") else (f"{pid}-r4{mn}" if d.startswith("/tmp/seed4/") else (f"{pid}-r5{mn}" if d.startswith("/tmp/seed5/") else (f"{pid}-r6{mn}" if d.startswith("/tmp/seed6/") else (f"{pid}-r7{mn}" if d.startswith("/tmp/seed7/") else f"{pid}-r8{mn}"))))))
         if only and name not in only and pid not in only:
             continue
         try:
